@@ -33,18 +33,20 @@ struct SpanSpec { r1: usize, c1: usize, r2: usize, c2: usize, file: String }
 #[derive(Clone, Debug)]
 struct NoteSpec { message: String, span: Option<SpanSpec> }
 #[derive(Clone, Debug)]
-struct DiagSpec { kind: char, level: char, payload: String, span: Option<SpanSpec>, notes: Vec<NoteSpec> }
+struct DiagSpec { kind: char, level: char, payload: String, span: Option<SpanSpec>, notes: Vec<NoteSpec>,
+                  /// `Diagnostic::message()` of the real diagnostic built from this spec (filled in by `run_emit`)
+                  real_message: Option<String> }
 
 impl DiagSpec {
-    /// what the diagnostic must say, derived from the Rust sources' message formats, not from the model
+    /// the code the diagnostic must carry (codes are part of the compiler's interface; message *wording* is not)
     fn code(&self) -> &'static str {
         match self.kind { 'S' => "E002", 'M' => "MalformedDocComment", 'I' => "IncorrectDocComment", 'B' => "BrokenDocLink", 'F' => "DuplicateFile", _ => "Deprecated" }
     }
+    /// what the emitter must print as the message: whatever `Diagnostic::message()` says for this diagnostic. Its wording is owned
+    /// by diagnostics/errors.rs and lints.rs and may change freely; only kinds whose message *is* the payload are pinned here.
     fn message(&self) -> String {
-        match self.kind {
-            'F' => format!("slice file was provided more than once: '{}'", self.payload),
-            'D' => format!("'{}' is deprecated", self.payload),
-            'S' => format!("invalid syntax: {}", self.payload),
+        match (self.kind, &self.real_message) {
+            ('F' | 'D' | 'S', Some(m)) => m.clone(),
             _ => self.payload.clone(),
         }
     }
@@ -70,7 +72,7 @@ fn parse_diags(s: &str) -> Option<Vec<DiagSpec>> {
                 notes.push(NoteSpec { message: unhex(m)?, span: parse_span(sp)? });
             }
         }
-        out.push(DiagSpec { kind: p[0].chars().next()?, level: p[1].chars().next()?, payload: unhex(p[2])?, span: parse_span(p[3])?, notes });
+        out.push(DiagSpec { kind: p[0].chars().next()?, level: p[1].chars().next()?, payload: unhex(p[2])?, span: parse_span(p[3])?, notes, real_message: None });
     }
     Some(out)
 }
@@ -212,13 +214,17 @@ fn json_oracle(out: &[u8], shown: &[&DiagSpec]) -> Option<String> {
 pub fn run_emit(op: &str, fam: &str, format: &str, files: &str, diags: &str, expected: &str) -> CaseResult {
     let bad = |why: &str| CaseResult { actual: "?".into(), diff: Some(format!("unreadable case: {why}")), oracle: None, nontrivial: false };
     let Some(file_specs) = parse_files(files) else { return bad("files") };
-    let Some(specs) = parse_diags(diags) else { return bad("diags") };
+    let Some(mut specs) = parse_diags(diags) else { return bad("diags") };
     let human = match format { "human" => true, "json" => false, _ => return bad("format") };
     let colour_on = op == "emitc";
 
     let built = catch_unwind(AssertUnwindSafe(|| (mk_files(&file_specs), mk_diags(&specs, &file_specs))));
     let Ok((real_files, real_diags)) = built else { return bad("the diagnostics could not be constructed") };
 
+    for (d, s) in real_diags.iter().zip(specs.iter_mut()) {
+        // the payload must still be part of the message, whatever the wording around it
+        if d.message().contains(s.payload.as_str()) { s.real_message = Some(d.message()); }
+    }
     // levels and totals of the real values against the case's own levels (independent of the model)
     let mut oracle: Option<String> = None;
     for (d, s) in real_diags.iter().zip(&specs) {
